@@ -353,9 +353,17 @@ def run(ctx):
 
 
 def search(ctx, unproved):
+    """Each clause on its own: a change that makes the harness of one clause unusable (an exception out of the wrapper
+    under the fake SyncObj) must not hide what the other clause can show (seeded change C16-18)."""
     bat = lc.load_batteries(ctx.repo)
-    return (late_clause(bat, ctx.rng("locks.client.search"), ctx.scale(2000, 20000))[0][:2]
-            + failed_clause(bat, ctx.rng("locks.client.search2"), ctx.scale(200, 2000))[0][:2])
+    out = []
+    for fn, salt, n, keep in ((late_clause, "locks.client.search", ctx.scale(2000, 20000), 2),
+                              (failed_clause, "locks.client.search2", ctx.scale(200, 2000), 2)):
+        try:
+            out += fn(bat, ctx.rng(salt), n)[0][:keep]
+        except Exception:
+            pass
+    return out
 
 
 def replay(ctx, violation):
